@@ -8,7 +8,9 @@ package dlqueue
 //
 // Scripts: "honest" answers every request completely; "stall" never answers (its requests time out after three round trip
 // estimates and the loop drops it); "empty" answers with no bodies; "liar" answers with bodies that match nothing;
-// "partial" answers with the first body only.
+// "partial" answers with the first body only; "slowbig" is honest but slow once: it lets the first request of
+// more than two items time out (such a time-out does not get the peer dropped: the loop marks it idle again through the real
+// peerConnection.SetBodiesIdle with zero delivered items) and answers everything else completely.
 
 import (
 	"bufio"
@@ -40,15 +42,19 @@ type Scenario struct {
 	Chunks  []int             `json:"chunks"`
 }
 
-const loopRTT = 15 * time.Millisecond
+const (
+	loopRTT   = 15 * time.Millisecond
+	loopBound = 12 * time.Second // bounded wait for the loop to return
+)
 
 type fakePeer struct {
-	id     string
-	script string
-	w      *world
-	l      *downloader.VerifLoop
-	mu     sync.Mutex
-	reqs   int
+	id      string
+	script  string
+	w       *world
+	l       *downloader.VerifLoop
+	mu      sync.Mutex
+	reqs    int
+	stalled bool
 }
 
 func (p *fakePeer) Head() (common.Hash, *big.Int) { return common.Hash{}, big.NewInt(0) }
@@ -69,6 +75,17 @@ func (p *fakePeer) RequestBodies(hashes []common.Hash) error {
 	var lists [][]*types.Transaction
 	switch p.script {
 	case "honest":
+		lists = p.w.lists(ids)
+	case "slowbig":
+		p.mu.Lock()
+		stall := !p.stalled && len(hashes) > 2
+		if stall {
+			p.stalled = true
+		}
+		p.mu.Unlock()
+		if stall {
+			return nil
+		}
 		lists = p.w.lists(ids)
 	case "stall":
 		return nil
@@ -100,15 +117,18 @@ func runScenario(sc *Scenario, seed int64) (evs []loopEvent) {
 	honestThere := false
 	for id, s := range sc.Scripts {
 		ids = append(ids, id)
-		if s == "honest" {
+		if s == "honest" || s == "slowbig" {
 			honestThere = true
 		}
 	}
 	sort.Strings(ids)
 	evs = append(evs, loopEvent{"ev": "Init", "args": loopEvent{"n": w.n, "fl": 0, "forkfrom": 1, "body": w.body, "w": w.w, "peers": ids,
 		"origin": w.origin, "maxp": w.effMaxP(), "scripts": sc.Scripts, "loop": true}})
+	fakes := []*fakePeer{}
 	for _, id := range ids {
-		if err := l.RegisterPeer(id, &fakePeer{id: id, script: sc.Scripts[id], w: w, l: l}, loopRTT); err != nil {
+		fp := &fakePeer{id: id, script: sc.Scripts[id], w: w, l: l}
+		fakes = append(fakes, fp)
+		if err := l.RegisterPeer(id, fp, loopRTT); err != nil {
 			panic(err)
 		}
 	}
@@ -173,9 +193,21 @@ func runScenario(sc *Scenario, seed int64) (evs []loopEvent) {
 	var end string
 	select {
 	case end = <-ldone:
-	case <-time.After(30 * time.Second):
+	case <-time.After(loopBound):
+		// The loop is still running long after any scenario needs (they end within a second): a verdict, not a timeout.
+		// Name the situation if it is the known one: an honest peer that holds no request but whose activity flag is set.
+		end = "hang"
+		pools := l.Pools()
+		for _, id := range ids {
+			if s := sc.Scripts[id]; s == "honest" || s == "slowbig" {
+				busy, reg := l.PeerBusy(id)
+				if reg && busy && len(pools.Pend[id]) == 0 {
+					end = "peer_never_idle_again"
+				}
+			}
+		}
 		l.Close()
-		end = "driver-timeout"
+		<-ldone
 	}
 	if end == "nil" {
 		// the loop finished: everything it completed is (being) handed to the consumer
@@ -194,7 +226,16 @@ func runScenario(sc *Scenario, seed int64) (evs []loopEvent) {
 	for _, b := range batches {
 		evs = append(evs, loopEvent{"ev": "LoopResults", "args": loopEvent{}, "res": loopEvent{"r": b}})
 	}
-	evs = append(evs, loopEvent{"ev": "LoopEnd", "args": loopEvent{"honest": honestThere}, "res": loopEvent{"err": end, "nd": got, "dropped": l.Dropped()}})
+	stalls := 0
+	for _, fp := range fakes {
+		fp.mu.Lock()
+		if fp.stalled {
+			stalls++
+		}
+		fp.mu.Unlock()
+	}
+	evs = append(evs, loopEvent{"ev": "LoopEnd", "args": loopEvent{"honest": honestThere}, "res": loopEvent{"err": end, "nd": got, "dropped": l.Dropped(),
+		"stalls": stalls}})
 	return evs
 }
 
